@@ -20,7 +20,7 @@
    [monotone] = the clock never goes back,
    [probe_state c s] = HALF_OPEN, or OPEN with now - last_failure >= timeout. *)
 From Coq Require Import ZArith List Bool.
-From Verif Require Import C08.Model C08.Proofs.
+From Verif Require Import C08.Model C08.Proofs gen.Gen_C08 C08.GenOk.
 Import ListNotations.
 Open Scope Z_scope.
 
@@ -163,3 +163,25 @@ Theorem c08_trace_is_run_ops :
      flat_map (fun x => match snd x with Some r => [r] | None => [] end) (trace c s ops)).
 Proof. exact trace_run_ops. Qed.
 Print Assumptions c08_trace_is_run_ops.
+
+(* ====================================================================== *)
+(* The breaker automaton of the model is the code.  gen/Gen_C08.v is regenerated from operon_ai/topology/loops.py
+   on every run (translators/c08_gen.py): [b_check_circuit], [b_record_success], [b_record_failure],
+   [b_reset_circuit_breaker] are the four breaker methods of CoherentFeedForwardLoop as Gallina functions over the
+   attributes they use ([now] is what datetime.now() returns), no other method assigns to those attributes, and
+   [breaker_callers] lists every call site.  Each generated function equals the model's, on every breaker state,
+   threshold, timeout and clock value; and run() calls them where [run_req] does. *)
+Theorem c08_gen_breaker_is_model :
+  forall thr tmo t b,
+    b_check_circuit (bproj thr tmo b) t =
+      (bproj thr tmo (fst (check_circuit tmo t b)), GBool (snd (check_circuit tmo t b))) /\
+    b_record_success (bproj thr tmo b) t = (bproj thr tmo (record_success t b), GUnit) /\
+    b_record_failure (bproj thr tmo b) t = (bproj thr tmo (record_failure thr t b), GUnit) /\
+    b_reset_circuit_breaker (bproj thr tmo b) t = (bproj thr tmo (reset_breaker b), GUnit) /\
+    breaker_callers = expected_callers.   (* = [("run", [0; 2; 1; 2])] *)
+Proof.
+  intros thr tmo t b.
+  exact (conj (b_check_circuit_ok thr tmo t b) (conj (b_record_success_ok thr tmo t b)
+        (conj (b_record_failure_ok thr tmo t b) (conj (b_reset_ok thr tmo t b) breaker_callers_ok)))).
+Qed.
+Print Assumptions c08_gen_breaker_is_model.
